@@ -6,7 +6,7 @@
 From Coq Require Import ZArith List Bool String.
 From Verif Require Import EmitState.EmitStateModel EmitState.EmitStateProofs EmitState.LookupModel EmitState.LookupProofs.
 From Verif Require Import EmitState.EncPathModel EmitState.EncPathProofs Codec.OffsetModel Codec.OffsetProofs.
-From VerifGen Require Import C14Tables C14TableProofs.
+From VerifGen Require Import C14Tables C14TableProofs C14MemPathModel C14MemPathProofs.
 Import ListNotations.
 Local Open Scope Z_scope.
 
@@ -26,6 +26,13 @@ Theorem C14_failed_bind_displacement_refuted : exists fl a h s c s' o,
   step fl a h s c = (s', o) /\ failed o = true /\ persistent s' <> persistent s.
 Proof. exact failed_bind_displacement_refuted. Qed.
 Print Assumptions C14_failed_bind_displacement_refuted.
+
+(* with an atomic bind (CodeHolder::bind_label checks the pending displacements before it binds: fixes/C14-bind-atomic.patch,
+   command CBindAtomic) the statement holds without any guard *)
+Theorem C14_failed_call_no_effect_atomic : forall fl a h s c s' o,
+  no_legacy_bind c = true -> step fl a h s c = (s', o) -> failed o = true -> persistent s' = persistent s.
+Proof. exact failed_call_no_effect_atomic. Qed.
+Print Assumptions C14_failed_call_no_effect_atomic.
 
 (* a failed instruction clears the one-shot state (options, extra register, inline comment), also under a throwing handler *)
 Theorem C14_state_cleared : forall fl a h s r s' o,
@@ -113,6 +120,30 @@ Theorem C14_a64_disp_codec : forall bits shift discard d,
 Proof. exact a64_disp_codec. Qed.
 Print Assumptions C14_a64_disp_codec.
 
+(* ---- memory-operand path of `add r32, [mem]` on x86-32/x86-64 (C14MemPathModel.v): C13's validator model, then
+   EmitX86M prefixes + EmitModSib with every table read instrumented; the verdict (bytes | error) is computed ---- *)
+(* no table is read out of bounds for ANY base/index type (5-bit fields), segment (3-bit field), id, shift, offset *)
+Theorem C14_mem_path_never_stuck : forall x64 add_id m,
+  0 <= m_btype m <= x86c_mem_base_type_max -> 0 <= m_itype m <= x86c_mem_index_type_max -> 0 <= m_seg m <= x86c_mem_segment_max ->
+  x86_add_mem x64 add_id m <> MStuck.
+Proof. exact mem_path_never_stuck. Qed.
+Print Assumptions C14_mem_path_never_stuck.
+
+Theorem C14_mem_encode_never_stuck : forall x64 m,
+  0 <= m_btype m <= x86c_mem_base_type_max -> 0 <= m_itype m <= x86c_mem_index_type_max -> 0 <= m_seg m <= x86c_mem_segment_max ->
+  x86_add_mem_encode x64 m <> MStuck.
+Proof. exact mem_encode_never_stuck. Qed.
+Print Assumptions C14_mem_encode_never_stuck.
+
+Theorem C14_mem_cmd_wf : forall a add_id m c, mem_cmd a add_id m = Some c -> wf_cmd c.
+Proof. exact mem_cmd_wf. Qed.
+Print Assumptions C14_mem_cmd_wf.
+
+Theorem C14_mem_cmd_bytes_only : forall a add_id m c, mem_cmd a add_id m = Some c ->
+  exists r, c = CInst r /\ match r with EncOk _ fx _ dr da ds => fx = None /\ dr = 0 /\ da = 0 /\ ds = 0 | EncErr _ => True end.
+Proof. exact mem_cmd_bytes_only. Qed.
+Print Assumptions C14_mem_cmd_bytes_only.
+
 (* ---- bounds of the table look-ups indexed by operand fields (tables and index sets dumped from the repository) ---- *)
 Theorem C14_lookups_in_range : forall s, In s sites -> forall i, In i (site_idx s) ->
   exists v, lookup (site_table s) i = Some v.
@@ -152,6 +183,16 @@ Theorem C14_opcode_tables_lookup : forall k,
   (In k x86_inst_alt_idx -> exists v, lookup x86_alt_opcode_table k = Some v).
 Proof. exact opcode_tables_lookup. Qed.
 Print Assumptions C14_opcode_tables_lookup.
+
+Theorem C14_opcode_mm_lookup : forall o, In o x86_legacy_opcodes ->
+  exists v, lookup x86_opcode_mm_table (Z.land (Z.shiftr o x86c_mm_shift) x86c_mm_index_max) = Some v.
+Proof. exact opcode_mm_lookup. Qed.
+Print Assumptions C14_opcode_mm_lookup.
+
+(* the bound comes from the opcode DATA, not from the field width: kMM_ForceEvex (bit 4) would index past the table *)
+Theorem C14_opcode_mm_field_refuted : exists m, 0 <= m <= x86c_mm_index_max /\ lookup x86_opcode_mm_table m = None.
+Proof. exact opcode_mm_field_refuted. Qed.
+Print Assumptions C14_opcode_mm_field_refuted.
 
 Theorem C14_common_hi_lookup : forall t, 0 <= t <= a64c_reg_type_max ->
   exists v, lookup a64_common_hi_reg_id_of_type_table t = Some v.
